@@ -133,7 +133,9 @@ func c02(args []string) error {
 		case c == 0:
 			resp.Status = 404
 		case c == 1: // 500 then 200: both responses are accepted by the discard policy
-			first := origin.Resp{Status: 500, Headers: map[string]string{"Content-Type": "text/plain"}, Body: "try again " + uri}
+			// (error answers come in all sizes and framings too)
+			first := origin.Resp{Status: []int{500, 503, 502}[k%3], Headers: map[string]string{"Content-Type": "text/plain"},
+				BodyGen: &origin.BodyGen{Kind: "text", Size: sizes[r.Intn(len(sizes))], Seed: k + 7}, Chunked: r.Intn(3) == 0}
 			if k%2 == 0 { // the write of the attempt that is retried is held for a while: no finish meanwhile
 				first.Headers["X-Verif-Hold"] = fmt.Sprintf("seed-%04d", len(seeds))
 			}
@@ -141,8 +143,10 @@ func c02(args []string) error {
 			addSeed(uri, h)
 			continue
 		case c == 15: // fails for good (503 on every attempt): the last answer is an accepted response too, its write is held
-			run.org.Route(h, uri, origin.Resp{Status: 503, Headers: map[string]string{"Content-Type": "text/plain"}, Body: "down " + uri},
-				origin.Resp{Status: 503, Headers: map[string]string{"Content-Type": "text/plain", "X-Verif-Hold": fmt.Sprintf("seed-%04d", len(seeds))}, Body: "still down " + uri})
+			run.org.Route(h, uri, origin.Resp{Status: 503, Headers: map[string]string{"Content-Type": "text/plain"},
+				BodyGen: &origin.BodyGen{Kind: "text", Size: sizes[r.Intn(len(sizes))], Seed: k + 8}, Chunked: r.Intn(3) == 0},
+				origin.Resp{Status: 503, Headers: map[string]string{"Content-Type": "text/plain", "X-Verif-Hold": fmt.Sprintf("seed-%04d", len(seeds))},
+					BodyGen: &origin.BodyGen{Kind: "text", Size: sizes[r.Intn(len(sizes))], Seed: k + 9}, Chunked: r.Intn(3) == 0})
 			addSeed(uri, h)
 			continue
 		case c == 2: // Cloudflare challenge: rejected, then a real answer
